@@ -128,6 +128,12 @@ def _run(stmts, env: dict, flags: set) -> None:
             env[st.target.id] = _ev(st.value, env)
         elif isinstance(st, ast.If) and any(isinstance(x, ast.Name) and x.id in flags and isinstance(x.ctx, ast.Store) for x in ast.walk(st)):
             _run(st.body if _ev(st.test, env) else st.orelse, env, flags)
+        elif isinstance(st, ast.Assign) and len(st.targets) == 1 and isinstance(st.targets[0], ast.Name):
+            # another local (a named condition, for instance): keep its value if it is a function of the two cells
+            try:
+                env[st.targets[0].id] = _ev(st.value, env)
+            except (_Unsupported, TypeError, KeyError):
+                env.pop(st.targets[0].id, None)
         # every other statement neither defines nor redefines a flag
 
 
